@@ -7,6 +7,7 @@ import (
 	"os"
 	"path/filepath"
 	"reflect"
+	"sort"
 	"strings"
 	"time"
 
@@ -132,7 +133,7 @@ func formatLib(f directives.File) (out string, panicked bool) {
 }
 
 func formatCase(bin, dir string, id int, text string) map[string]any {
-	cs := map[string]any{"id": id, "text": text, "panicked": false, "afterParses": false, "idempotent": false, "cliEqualsLib": false, "cliExit": 0, "cliUnchanged": false,
+	cs := map[string]any{"id": id, "text": text, "panicked": false, "afterParses": false, "idempotent": false, "cliEqualsLib": false, "cliExit": 0, "cliUnchanged": false, "inkBefore": "", "inkAfter": "",
 		"before": map[string]any{"dirs": []any{}, "gaps": []any{}}, "after": map[string]any{"dirs": []any{}, "gaps": []any{}}}
 	before := parseForFormat(text)
 	cs["parseable"] = before.ok
@@ -157,6 +158,7 @@ func formatCase(bin, dir string, id int, text string) map[string]any {
 		return cs
 	}
 	cs["formatted"] = after
+	cs["inkBefore"], cs["inkAfter"] = inkOf(text), inkOf(after)
 	cs["cliEqualsLib"] = string(now) == after
 	ap := parseForFormat(after)
 	cs["afterParses"] = ap.ok
@@ -232,4 +234,25 @@ func C08(c *core.Ctx) {
 		func(cs map[string]any) (string, string) {
 			return "format:" + fmt.Sprint(cs["why"]), fmt.Sprintf("format: %v (cli exit %v) %v\n--- input\n%v\n--- formatted\n%v", cs["why"], cs["cliExit"], cs["stderr"], cs["text"], cs["formatted"])
 		})
+}
+
+// inkOf is the census of the non-blank characters of a text ("rune:count" pairs in code-point order): formatting
+// may move blanks around and reorder annotations, it must not add or drop anything that is printed with ink.
+func inkOf(text string) string {
+	n := map[rune]int{}
+	for _, r := range text {
+		if r != ' ' && r != '\t' && r != '\n' && r != '\r' {
+			n[r]++
+		}
+	}
+	var rs []int
+	for r := range n {
+		rs = append(rs, int(r))
+	}
+	sort.Ints(rs)
+	var b strings.Builder
+	for _, r := range rs {
+		fmt.Fprintf(&b, "%x:%d,", r, n[rune(r)])
+	}
+	return b.String()
 }
